@@ -60,7 +60,11 @@ def tell(msg: str) -> None:
             velocity = adsb.velocity(msg)
             if velocity is not None:
                 spd, trk, vr, t = velocity
-                types = {"GS": "Ground speed", "TAS": "True airspeed"}
+                types = {
+                    "GS": "Ground speed",
+                    "TAS": "True airspeed",
+                    "IAS": "Indicated airspeed",
+                }
                 _print("Speed", spd, "knots")
                 _print("Track", trk, "degrees")
                 _print("Vertical rate", vr, "feet/minute")
